@@ -4,6 +4,8 @@ import (
 	"flag"
 	"fmt"
 	"os"
+
+	"verifharness/tfs"
 )
 
 var gens = map[string]genFunc{
@@ -47,6 +49,15 @@ var extraChecks = map[string]func(r *rng, tier string, res *Result){
 	"C15": func(r *rng, tier string, res *Result) { c15LargeGarbage(r, tier, res); c15LegacyNames(r, tier, res) },
 	"C02": func(r *rng, tier string, res *Result) { c02LargeIndex(r, tier, res); c02CloseFaults(r, tier, res) },
 	"C16": c16LargeValueOnMMap,
+	"C05": func(r *rng, tier string, res *Result) {
+		for i := 0; i < scale(tier, 8, 60); i++ {
+			n := concCompactGrow(r, tfs.New(), "db", res, fmt.Sprintf("C05/compact-grow/%d", i))
+			if res.Tags == nil {
+				res.Tags = map[string]int{}
+			}
+			res.Tags["keys_checked_after_compaction_alongside_growth"] += n
+		}
+	},
 	"C03": cBackgroundDuringRecovery,
 	"C04": cBackgroundDuringRecovery,
 }
